@@ -580,8 +580,31 @@ def _pred_atom(draw, pdf):
     return {"col": c, "bool": True}
 
 
+def _pred_or_of_ands(draw, pdf):
+    """OR of 2-4 branches, each an AND of 1-2 atoms from a small shared pool: the
+    shape the OR-factoring rewrite targets (conjuncts common to all / some / no branches)."""
+    s = st()
+    pool = [a for a in (_pred_atom(draw, pdf) for _ in range(draw(s.integers(2, 4)))) if a is not None]
+    if not pool:
+        return None
+    nb = draw(s.integers(2, 4))
+    branches = []
+    for _ in range(nb):
+        idx = draw(s.lists(s.integers(0, len(pool) - 1), min_size=1, max_size=2, unique=True))
+        b = pool[idx[0]]
+        for j in idx[1:]:
+            b = {"and": [b, pool[j]]}
+        branches.append(b)
+    p = branches[0]
+    for b in branches[1:]:
+        p = {"or": [p, b]}
+    return p
+
+
 def _pred(draw, pdf, depth=0):
     s = st()
+    if depth == 0 and draw(s.integers(0, 5)) == 0:
+        return _pred_or_of_ands(draw, pdf)
     form = draw(s.integers(0, 5 if depth < 2 else 2))
     if form <= 2:
         return _pred_atom(draw, pdf)
